@@ -80,6 +80,8 @@ M = [
  ("C10-duplicate-def-ignored", "C10", "src/builder/pass2.rs", "                if common_context.exist(&alias.to_lowercase()) {\n                    // TODO: add display current string of mistake and previous location\n                    bail!(\"Identifier {} is used twice, {}\", alias, line);\n                }\n                common_context.set_def", "                common_context.set_def", "second .def of a taken name silently ignored again (fix bef9b26 undone by hand)"),
  ("C11-directory-shadows-file", "C11", "src/parser.rs", "            if full_path.as_path().is_file() {", "            if full_path.as_path().exists() {", "a directory with the name of an included file ends the search again (part of fix a9de6e3 undone by hand)"),
  ("C10-define-clash-unchecked", "C10", "src/context.rs", "        self.define_names.borrow().contains(&name.to_lowercase())\n            // the location counter exists in pass 2 only, its name is taken from the start\n            || name.eq_ignore_ascii_case(\"pc\")", "        name.eq_ignore_ascii_case(\"pc\")", "a symbol may share its name with a #define again (fix d6b2fc4 undone by hand)"),
+ ("C10-pc-not-reserved", "C10", "src/context.rs", "            // the location counter exists in pass 2 only, its name is taken from the start\n            || name.eq_ignore_ascii_case(\"pc\")\n", "", "a label or .equ may be named pc again (fix 7783163 undone by hand)"),
+ ("C16-no-build-evaluation-budget", "C16", "src/expr.rs", "        if !constants.spend_evaluation_steps(steps.get()) {", "        if !constants.spend_evaluation_steps(0) {", "the evaluation steps of a build are no longer added up (fix f373a4d undone by hand)"),
  # ---- C17 independence
  ("C17-device-cache", "C17", "src/context.rs", "            device: Rc::new(RefCell::new(Some(Device::new(0)))),", "            device: Rc::new(RefCell::new(Some(LAST_DEVICE.with(|d| d.borrow().clone())))),", "context starts from a thread-local 'last device' cache"),
  ("C17-include-cache-by-name", "C17", "src/parser.rs", "    let include_paths = RefCell::new(include_paths);\n\n    let file_context", "    let cache_key = current_path.file_name().map(|n| n.to_string_lossy().to_string()).unwrap_or_default();\n    let source = INCLUDE_CACHE.with(|c| c.borrow_mut().entry(cache_key).or_insert(source).clone());\n    let include_paths = RefCell::new(include_paths);\n\n    let file_context", "included files cached per thread by file name"),
@@ -105,6 +107,8 @@ BENIGN = [
  ("B-blank-lines", [("src/instruction/mod.rs", "pub fn process(", "\n\n\n\n// (moved down by a few lines)\n\npub fn process("), ("src/parser.rs", "pub fn parse_iter<'a>(", "\n\n\npub fn parse_iter<'a>("), ("src/directive.rs", "impl Directive {", "\n\n\n\n\nimpl Directive {"), ("src/expr.rs", "impl Expr {", "\n\n\nimpl Expr {")], "every panic/bail location moves"),
  ("B-reword-errors", [("src/instruction/mod.rs", "bail!(\"Relative address out of range (-64 <= k <= 63)\");", "bail!(\"branch target too far away\");"), ("src/builder/mod.rs", "\"Flash size overdue by {} bytes\",", "\"program does not fit into flash ({} bytes too many)\","), ("src/builder/pass1.rs", "\"{} segment exceeds the memory of the device by {}, {}\",", "\"{} segment too large for the device: {} over, {}\","), ("src/expr.rs", "\"Attempted to divide by zero: {:?} / {:?}\",", "\"division by zero in {:?} / {:?}\",")], "error texts reworded (line: N kept)"),
  ("B-btreemap", [("src/context.rs", "pub labels: Rc<RefCell<HashMap<String, (SegmentType, u32)>>>,", "pub labels: Rc<RefCell<std::collections::BTreeMap<String, (SegmentType, u32)>>>,"), ("src/context.rs", "labels: Rc::new(RefCell::new(hashmap! {})),", "labels: Rc::new(RefCell::new(std::collections::BTreeMap::new())),")], "label table becomes a BTreeMap"),
+ ("B-device-any-case", [("src/directive.rs", "                        if let Some(device) = DEVICES.get(value.as_str()) {", "                        if let Some(device) = DEVICES.iter().find(|(name, _)| name.eq_ignore_ascii_case(value.as_str())).map(|(_, device)| device) {")], "device names accepted in any letter case (the statements do not say that atmega8 is unknown)"),
+ ("B-accept-bom", [("src/parser.rs", "    parse(source.as_str(), &file_context)?;", "    parse(source.trim_start_matches('\\u{feff}'), &file_context)?;")], "a byte order mark in front of a source file is skipped"),
  ("B-rename-locals", [("src/builder/pass1.rs", "let mut code_offset = 0;", "let mut flash_words = 0;"), ("src/builder/pass1.rs", "SegmentType::Code => code_offset,", "SegmentType::Code => flash_words,"), ("src/builder/pass1.rs", "code_offset = current_end_offset;", "flash_words = current_end_offset;")], "locals renamed"),
 ]
 
@@ -126,10 +130,8 @@ REVERTS = [
  ("R-directive-second-operand", "C15", "b1eac26", ".if 1 nosuch assembles as .if 1"),
  ("R-macro-line-length-precheck", "C16", "eb3a7c1", "a macro line with thousands of parameters and a long argument is built before its length is checked"),
  ("R-empty-flash-not-written", "C18", "cb20c45", "no .hex for an empty flash image, stale file stays"),
- ("R-pc-as-label", "C10", "7783163", "label or .equ named pc accepted"),
  ("R-undef-two-names", "C10", "6571ebb", ".undef a, b ends a only"),
  ("R-def-register-name", "C10", "7d69954", ".def r5 = r20 accepted and ignored"),
- ("R-build-evaluation-budget", "C16", "f373a4d", "long ladder used on every line takes minutes"),
  ("R-endless-source-file", "C16", "a84bfdc", ".include \"/dev/zero\" eats the memory"),
  ("R-blank-in-increment", "C14", "c7ac8d4", "ld r16, X + is a syntax error"),
 ]
